@@ -469,3 +469,27 @@ func genDeletion(t *rapid.T, h *history, batch int) (string, []string, *ref.DelW
 
 var delClassPriority = []string{"index-too-large", "wrong-value", "stale-path", "corrupted-path", "dependent-prestate-path", "duplicate-old-value",
 	"post=pre", "post-random", "post+1", "padding-genuine-data", "padding", "duplicate-padding", "duplicate-current", "dependent-sequential", "already-empty-or-genuine", "genuine"}
+
+// genValidParams draws a relation-valid parameter set (with the reference
+// packing hash, reduced mod r) for the given mode and dimensions.
+func genValidParams(t *rapid.T, mode string, depth, batch int) *mParams {
+	h := genHistory(t, depth, 8)
+	m := &mParams{Mode: mode}
+	if mode == "insertion" {
+		w := genValidInsertion(t, h, batch)
+		if w == nil {
+			h = &history{Depth: depth, Tree: ref.NewTreeH(depth, ref.MemoH2())}
+			w = genValidInsertion(t, h, batch)
+		}
+		m.StartIndex, m.PreRoot, m.PostRoot, m.IdComms, m.MerkleProofs = low32(w.Start), w.Pre, w.Post, w.Ids, w.Paths
+		m.InputHash = ref.Mod(ref.HashInsertion(m.StartIndex, m.PreRoot, m.PostRoot, m.IdComms))
+	} else {
+		w := genValidDeletion(t, h, batch)
+		m.PreRoot, m.PostRoot, m.IdComms, m.MerkleProofs = w.Pre, w.Post, w.Ids, w.Paths
+		for _, v := range w.Idx {
+			m.DeletionIndices = append(m.DeletionIndices, low32(v))
+		}
+		m.InputHash = ref.Mod(ref.HashDeletion(m.DeletionIndices, m.PreRoot, m.PostRoot))
+	}
+	return m
+}
